@@ -114,6 +114,10 @@ class Gen:
             import json as _json
             self.comps = _json.loads(_json.dumps(P["reuse_comps"]))
             n = len(self.comps)
+            # the names this page binds ({% for %} / {% with %} variables, aliases) must stay unique also with respect to
+            # the templates of the reused library, which another Gen produced (structure mode: no property but C03 may
+            # depend on shadowing - vp check seed 1, C04 run 7784, met open finding F15 through 'n1' bound twice)
+            self.n_var = 500
             share = max(3, self.budget // 2)
         else:
             n = ch.int_between(1, P["max_comps"], "n_comps")
